@@ -474,12 +474,33 @@ def compare_exprs(m, in_ast, out_ast, pin, pout, digits, stats, scalar, ins=None
     if scalar:
         sol.add(z3.Real("s!") != 0)
     amp = m.amplification
-    ez = z3.Q((tol * amp).numerator, (tol * amp).denominator)
     zero = z3.RealVal(0)
+    b_exact = poly_of(out_ast) or Poly()
+
+    def _sub_multiset(small, big):
+        rest = list(big)
+        for x in small:
+            if x in rest:
+                rest.remove(x)
+            else:
+                return False
+        return True
+
     for i, k in enumerate(sorted(set(az) | set(bz))):
         # eps_k: a term whose coefficient rounds to zero is legitimately omitted from the output; inside a
-        # factored output (a product of sums) the omission is multiplied by the other factor: `amp` bounds that
+        # factored output (a product of sums) the omission is multiplied by the other factor: `amp` bounds that.
+        # When the rounded-away numeral was the only addend next to a fluent, "(x + 0.3) * rest" at 0 digits, the sum
+        # itself disappears from the print and the output is the single monomial x * rest: a monomial k that is absent
+        # from the output but divides an output monomial j by one (two) fluent(s) may then differ by tol * |coefficient
+        # of j| (tol^2 * ...), which is exactly what the elided numeral(s) could contribute.
+        bound = tol * amp
+        if b_exact.get(k, Fraction(0)) == 0:
+            for j, cj in b_exact.items():
+                extra = len(j) - len(k)
+                if extra in (1, 2) and _sub_multiset(k, j):
+                    bound = max(bound, (tol ** extra) * (abs(cj) + tol) * (1 if extra == 1 else 2))
         ek = z3.Real(f"e!{i}")
+        ez = z3.Q(bound.numerator, bound.denominator)
         sol.add(ek <= ez, -ek <= ez)
         sol.add(az.get(k, zero) == bz.get(k, zero) + ek)
     t0 = time.time()
